@@ -3,6 +3,7 @@ package lists
 import (
 	"github.com/lmorg/murex/lang"
 	"github.com/lmorg/murex/lang/types"
+	"math"
 )
 
 func init() {
@@ -47,6 +48,10 @@ func cmdLeft(p *lang.Process) error {
 
 	case left < 0:
 		left = left * -1
+		if left < 0 {
+			// the smallest integer has no positive counterpart
+			left = math.MaxInt
+		}
 		p.Stdin.ReadArray(p.Context, func(b []byte) {
 			if len(b) < left {
 				err = aw.WriteString("")
@@ -112,6 +117,9 @@ func cmdRight(p *lang.Process) error {
 
 	case right < 0:
 		right = right * -1
+		if right < 0 {
+			right = math.MaxInt
+		}
 		p.Stdin.ReadArray(p.Context, func(b []byte) {
 			if len(b) < right {
 				err = aw.WriteString("")
